@@ -516,6 +516,7 @@ package kcp
 //@   modifies all(dec), allmaps(fecDecoder.shardSet), allof(shardHeap), allelems(fecPacket), allmaps(shardHeap.marks)
 //@   modifies dec.decodeCache[..], dec.flagCache[..], allbytes, all(DefaultSnmp)
 //@   ensures dec.wf()
+//@   ensures @C05 [newest-group-tracking] len(pkts) >= 0 ==> itimediff(uint32(shardId * uint32(dec.shardSize)), uint32(dec.newestShardId * uint32(dec.shardSize))) <= 0
 //@   loop 3 invariant forall j int :: 0 <= j && j <= rangeindex ==> shards[j] == nil
 //@   loop 4 invariant shard.wf() && dec.wfSets() && (pkts == nil || fresh(pkts)) && maxlen >= 0 && maxlen <= 1494 && numDataShard >= 0
 //@   loop 4 invariant forall j int :: 0 <= j && j < len(shards) ==> shardok(shards[j], maxlen)
